@@ -246,8 +246,53 @@ def run_loader(case):
     return out
 
 
+def symlink_scenarios(ctx):
+    """a file template is the file its *name* leads to now: a path through a symbolic link follows the link when it is re-pointed,
+    keeps the name it was given (so `load:` looks next to the link, and a loader result is `<search dir>/<name>`)"""
+    from chameleon import PageTemplateFile, PageTemplateLoader
+    d = tempfile.mkdtemp(prefix='c16l_')
+    try:
+        for rel in ('releases/1', 'releases/2', 'shared', 'site'):
+            os.makedirs(os.path.join(d, rel))
+        for i, rel in enumerate(('releases/1', 'releases/2')):
+            p = os.path.join(d, rel, 'page.pt')
+            open(p, 'w').write('<p>release %d</p>' % (i + 1))
+            os.utime(p, (1000000000 + 1000 * i, 1000000000 + 1000 * i))
+        cur = os.path.join(d, 'current')
+        os.symlink(os.path.join('releases', '1'), cur)
+        name = os.path.join(cur, 'page.pt')
+        t = PageTemplateFile(name, auto_reload=True)
+        got = [t()]
+        os.symlink(os.path.join('releases', '2'), cur + '.new')
+        os.replace(cur + '.new', cur)
+        got.append(t())
+        got.append(t.filename)
+        ctx.count('evaluations', 3)
+        want = ['<p>release 1</p>', '<p>release 2</p>', name]
+        if got != want:
+            ctx.violation('a file template reached through a symbolic link does not follow the file its name leads to (or loses its name)',
+                          {'history': 'current -> releases/1; render; current -> releases/2; render; filename'}, expected=want, actual=got)
+        # a linked template file: `load:` is relative to the template's name, the loader's result is named <search dir>/<name>
+        open(os.path.join(d, 'shared', 'page.pt'), 'w').write('<div tal:define="h load: helper.pt">${structure: h()}</div>')
+        open(os.path.join(d, 'shared', 'helper.pt'), 'w').write('<b>helper in shared</b>')
+        open(os.path.join(d, 'site', 'helper.pt'), 'w').write('<b>helper in site</b>')
+        os.symlink(os.path.join('..', 'shared', 'page.pt'), os.path.join(d, 'site', 'page.pt'))
+        sp = os.path.join(d, 'site', 'page.pt')
+        got = [PageTemplateFile(sp)()]
+        lt = PageTemplateLoader([os.path.join(d, 'site')]).load('page.pt')
+        got += [lt.filename, lt()]
+        ctx.count('evaluations', 3)
+        want = ['<div><b>helper in site</b></div>', sp, '<div><b>helper in site</b></div>']
+        if got != want:
+            ctx.violation('a template file that is a symbolic link keeps the name it was found under (load: next to it; loader result filename)',
+                          {'layout': 'site/page.pt -> ../shared/page.pt; helper.pt in both directories'}, expected=want, actual=got)
+    finally:
+        shutil.rmtree(d, ignore_errors=True)
+
+
 def oracle(ctx):
     nt = 0
+    symlink_scenarios(ctx)
     d = tempfile.mkdtemp(prefix='c16_')
     try:
         # (1) monotone histories against the specification, directly
